@@ -47,6 +47,10 @@ def EQ(a, b):
     if a.eq(b): return TRUE
     if z3.is_bv_value(a) and z3.is_bv_value(b): return z3.BoolVal(a.as_long() == b.as_long())
     if z3.is_bool(a) and isconst(a) and isconst(b): return z3.BoolVal(z3.is_true(a) == z3.is_true(b))
+    # ite over constants compared with a constant: push the comparison into the branches (keeps tag tests foldable)
+    for x, y in ((a, b), (b, a)):
+        if z3.is_bv_value(y) and z3.is_app_of(x, z3.Z3_OP_ITE) and z3.is_bv_value(x.arg(1)) and z3.is_bv_value(x.arg(2)):
+            return IF(x.arg(0), z3.BoolVal(x.arg(1).as_long() == y.as_long()), z3.BoolVal(x.arg(2).as_long() == y.as_long()))
     if z3.is_bool(a):
         if z3.is_true(b): return a
         if z3.is_false(b): return NOT(a)
@@ -462,8 +466,12 @@ class Engine:
         m = re.match(r"'(.)'$", c)
         if m: return BV(ord(m.group(1)), 32)
         if 'promoted[' in c:
-            cands = [n for n in self.mir.fn_text if n.endswith(c.split('::')[-1]) and (c.split('::')[-2] in n)]
-            if len(cands) >= 1: return self.call(cands[0], [], TRUE)
+            segs = c.split('::')
+            for cut in range(len(segs)):      # the use site may qualify the path with leading module names
+                key = '::'.join(segs[cut:])
+                if key in self.mir.fn_text: return self.call(key, [], TRUE)
+            cands = [n for n in self.mir.fn_text if n.endswith('::' + '::'.join(segs[-2:]))]
+            if len(cands) == 1: return self.call(cands[0], [], TRUE)
             raise Unsupported('promoted ' + c)
         last = c.split('::')[-1]
         for k in (c, last):
@@ -693,7 +701,7 @@ class Engine:
             if pat.fullmatch(callee):
                 self.models_used.add('stub:' + fnm.__name__); return fnm(self, callee, argv, g)
         name = self.lookup_callee(callee)
-        if name is not None and not (name in self.mir.derived and name.endswith(('::clone', '::eq', '::default'))):
+        if name is not None and not (name in self.mir.derived and name.endswith(('::clone', '::eq', '::ne'))):
             return self.call(name, argv, g)     # in-crate code is executed from its own MIR
         for pat, fnm in self.models:
             if pat.fullmatch(callee):
